@@ -66,7 +66,10 @@ class Volume
 
      std::optional<SectorBuffer> read_block(unsigned long lba) override
        {
-	 if (lba > len_)
+	 // Valid block addresses within the volume are 0 .. len_-1;
+	 // lba == len_ is the first sector of whatever follows it
+	 // (for Opus DDOS, the next volume).
+	 if (lba >= len_)
 	   return std::nullopt;
 	 return underlying_.read_block(origin_ + lba);
        }
